@@ -205,7 +205,7 @@ class Recorder:
     bad = Context.bad
     unk = Context.unk
 
-    def floor(self, name: str, found: int, floor: int) -> None:     # floors belong to the check that owns the rule
+    def floor(self, name: str, found: int, floor: int, soft: bool = False) -> None:     # floors belong to the check that owns the rule
         pass
 
 
